@@ -3,6 +3,7 @@
  */
 
 #include <ctype.h>
+#include <errno.h>
 #include <stdlib.h>
 
 #include "convert.h"
@@ -30,6 +31,7 @@ extern int mpt_cfloat(float *val, const char *src, const float range[2])
 	if (!*src) {
 		return 0;
 	}
+	errno = 0;
 	tmp = strtof(src, &end);
 	
 	if (end == src) {
@@ -40,6 +42,10 @@ extern int mpt_cfloat(float *val, const char *src, const float range[2])
 			}
 		}
 		return 0;
+	}
+	/* value not representable */
+	if (errno == ERANGE) {
+		return MPT_ERROR(BadValue);
 	}
 	if (range && (range[0] > tmp || tmp > range[1])) {
 		return MPT_ERROR(BadValue);
